@@ -119,9 +119,9 @@ def get_root_include_path(filename):
     if filename is None:
         return None
     root_path = None
-    full_file_path = os.path.abspath(
-        os.path.normpath(
-            os.path.expanduser(filename)))
+    # (The cart is opened under the name as given, so "~" is not expanded
+    # here either: that would move the root away from the cart.)
+    full_file_path = os.path.abspath(os.path.normpath(filename))
     for candidate in PICO8_CART_PATHS:
         full_candidate_path = os.path.abspath(
             os.path.normpath(
